@@ -209,6 +209,9 @@ type nodeFinal struct {
 }
 
 type Finality struct {
+	// SeqOnly: only the delivery sequence is judged (consecutive indexes, increasing round-received), not what the
+	// node reports for old blocks (used under commit faults, where the stored block never gets its state hash)
+	SeqOnly   bool
 	nodes     map[int]*nodeFinal
 	Evictions int
 	Reads     int
@@ -282,7 +285,7 @@ func (m *Finality) AfterStep(c *sim.Cluster) []ev.Violation {
 		}
 		nf.consumed = len(n.App.Commits)
 		applyRestores(nf.consumed)
-		if n.Down {
+		if n.Down || m.SeqOnly {
 			continue
 		}
 		// what the node reports (Node.GetBlock is what the HTTP service serves)
